@@ -51,6 +51,9 @@ type BlockSpec struct {
 	Receipts  []*core.TransactionReceipt
 	Sequencer *felt.Felt
 	L1DAMode  core.L1DAMode
+	// Header, when set, may adjust the header fields Build chooses itself (gas prices ...) before the
+	// block is completed (roots, commitments, hash). Optional; nil keeps the defaults.
+	Header func(h *core.Header)
 }
 
 type Built struct {
@@ -133,6 +136,9 @@ func (n *Node) BuildAt(spec BlockSpec, number uint64, parent *felt.Felt) (*Built
 		},
 		Transactions: spec.Txs,
 		Receipts:     spec.Receipts,
+	}
+	if spec.Header != nil {
+		spec.Header(block.Header)
 	}
 	oldRoot := &felt.Zero
 	if number > 0 {
